@@ -459,6 +459,14 @@ impl DbRunner {
                         }
                         self.before.truncate(k);
                         self.faithful.truncate(k);
+                        if !faithful && has_change {
+                            // the reversal used old values that were not true: the tasks are no longer
+                            // what the recorded earlier contents say, so exact restoration cannot be
+                            // expected of the remaining operations either (until the next sync)
+                            for x in self.faithful.iter_mut() {
+                                *x = false;
+                            }
+                        }
                     } else if after.tasks != before.tasks || after.unsynced != before.unsynced {
                         self.problems.push(format!("undo of {:?} failed with an error but changed the replica", list_used));
                     }
